@@ -822,6 +822,11 @@ def judge(case, eng: dict, models: Dict[str, list]) -> List[dict]:
             return [{"key": "viral-column-not-emitted:binder-error", "attr": None,
                      "what": "a dataset-level operator nested under an operator or clause that removes / re-reads the viral attribute does not "
                              f"emit the viral column and the outer query fails in DuckDB ({msg})"}]
+        if kind == "Runtime" and "Could not convert string" in msg and "to INT32" in msg:
+            return [{"key": "null-valued-viral-column-of-intermediate-result-typed-int32", "attr": None,
+                     "what": "a rule that yields null (e.g. `when \"B\" then null`) makes the viral column of an INTERMEDIATE result all-NULL; DuckDB "
+                             "materialises it with its default type for NULL (INT32) and a later statement that combines it with string values "
+                             f"fails: {msg}"}]
         return [{"key": f"engine-error:{kind}:{code}:{err_site(case)}", "attr": None,
                  "what": f"engine raises {kind} {code} ({msg}); the propagation model gives a dataset"}]
     # ---- datasets
